@@ -269,6 +269,9 @@ class CopyIdentifiers(Scenario):
                      "copy into another workspace: occupied identifier replaced, free ones kept", "copy identifiers")
         else:
             cx.prove(ids_cp == ids_src, "copy into another workspace: identifiers kept when free", "copy identifiers")
+            if d is not None and cd:
+                cx.prove(cd[0].entity_type.uid == d.entity_type.uid and cp.entity_type.uid == src.entity_type.uid,
+                         "copy into another workspace: the types keep their identifiers when free", "copy identifiers")
         for w in {id(ws): ws, id(target): target}.values():
             allids = [e.uid for e in w.groups + w.objects + w.data + w.property_groups]
             cx.prove(len(allids) == len(set(allids)), "no identifier occurs twice in a workspace after the copy", "uniqueness")
@@ -304,6 +307,32 @@ class CopyAfterRemoval(Scenario):
         return "ok"
 
 
+class TypeCopy(Scenario):
+    """a data type used in / copied to another workspace keeps its identifier when it is free there, else gets a fresh one"""
+    pid = "C06"
+
+    def body(self, cx):
+        from geoh5py.workspace import Workspace
+        via_add_data, second = bool(cx.bool("via_add_data")), bool(cx.bool("copy_twice"))
+        ws, other = Workspace(), Workspace()
+        src = _make(ws, 1, U[0])
+        d = src.add_data({"d": {"values": _np.zeros(2)}})
+        t = d.entity_type
+        holder = _make(other, 1, U[1])
+        if via_add_data:
+            first = holder.add_data({"x": {"values": _np.zeros(2), "entity_type": t}}).entity_type
+        else:
+            first = t.copy(workspace=other)
+        cx.prove(first.workspace is other and first.uid == t.uid, "type keeps its identifier in a workspace where it is free",
+                 "type identifiers")
+        if second:
+            again = t.copy(workspace=other)
+            cx.prove(again.uid != t.uid and again is not first, "a second copy gets a fresh identifier", "type identifiers")
+        ids = [x.uid for x in other.types]
+        cx.prove(len(ids) == len(set(ids)), "no two types of a workspace share an identifier", "type identifiers")
+        return "ok"
+
+
 class OneTypePerClass(Scenario):
     pid = "C06"
 
@@ -320,7 +349,7 @@ class OneTypePerClass(Scenario):
 
 def main(tier, seed):
     rc1 = run_property(
-        "C06", [ReuseIdentifier(), ReusePropertyGroupIdentifier(), CopyIdentifiers(), CopyAfterRemoval(), OneTypePerClass()], tier, seed,
+        "C06", [ReuseIdentifier(), ReusePropertyGroupIdentifier(), CopyIdentifiers(), CopyAfterRemoval(), TypeCopy(), OneTypePerClass()], tier, seed,
         assumptions=["workspace level: the real in-memory Workspace (real h5py, real numpy) is driven by the symx explorer; only "
                      "entity kinds and flags are symbolic, every feasible combination is one path",
                      "garbage collection is not a variable: entities stay referenced by the harness"],
@@ -329,9 +358,9 @@ def main(tier, seed):
         bounds="entity kinds {ContainerGroup, Points, Curve} x same/free identifier; copy flags (same/other workspace, occupied, "
                "with data, with property group)",
         expected_outcomes={"ReuseIdentifier": {"refused"}, "ReusePropertyGroupIdentifier": {"refused"}, "CopyIdentifiers": {"ok"},
-                           "CopyAfterRemoval": {"ok"},
+                           "CopyAfterRemoval": {"ok"}, "TypeCopy": {"ok"},
                            "OneTypePerClass": {"ok"}},
-        jobs=5,
+        jobs=6,
     )
     rc2 = run_xh(
         "C06", PRELUDE, CONDS, tier, seed,
